@@ -24,9 +24,16 @@ NEW_ORDER = "XYXYXYXY"
 NBADFRAMES = 7      # incompatible Frame objects in the pool (the rest are non-frames)
 
 
+POOL_ROUTE = ['ctor']
+
+
 def pool():
     # compatible frames (the guard compares df, dt, fchans, fmin); they need not have the same number of integrations
-    ok = [stg.Frame(fchans=4, tchans=(2, 2, 3, 1)[i], df=1.0, dt=1.0, fch1=100.0, t_start=float(10 * i), seed=i) for i in range(4)]
+    if POOL_ROUTE[0] == 'from_data':
+        # frames made from arrays without a metadata argument (as slices, de-drifted frames and user arrays are)
+        ok = [stg.Frame.from_data(1.0, 1.0, 100.0, False, np.zeros(((2, 2, 3, 1)[i], 4)), t_start=float(10 * i), seed=i) for i in range(4)]
+    else:
+        ok = [stg.Frame(fchans=4, tchans=(2, 2, 3, 1)[i], df=1.0, dt=1.0, fch1=100.0, t_start=float(10 * i), seed=i) for i in range(4)]
     bad = [stg.Frame(fchans=4, tchans=2, df=2.0, dt=1.0, fch1=103.0, t_start=0., seed=9),     # df differs (fmin equal)
            stg.Frame(fchans=4, tchans=2, df=1.0, dt=2.0, fch1=100.0, t_start=0., seed=9),     # dt differs
            stg.Frame(fchans=5, tchans=2, df=1.0, dt=1.0, fch1=101.0, t_start=0., seed=9),     # fchans differs (fmin equal)
@@ -41,10 +48,11 @@ def pool():
 OPS = ('append', 'insert', 'setitem', 'delitem', 'pop', 'pop_last', 'getitem', 'extend')
 
 
-def job_step(kind, n, op):
-    """kind: 'plain' | 'ordered'; n: pre-state length; op: operation"""
+def job_step(kind, n, op, route='ctor'):
+    """kind: 'plain' | 'ordered'; n: pre-state length; op: operation; route: how the pool frames were constructed"""
     recs = []
-    tag = f"C18:{kind}:{n}:{op}"
+    tag = f"C18:{kind}:{n}:{op}" + (f":{route}" if route != 'ctor' else '')
+    POOL_ROUTE[0] = route
     ok, bad = pool()
     ii = z3.Int('i')
     isym = Sym(z3.ToReal(ii), True)
@@ -113,7 +121,7 @@ def job_step(kind, n, op):
                         nviol += 1
                         name = f"{tag}:state{st}:lab{lab}:obj{ob}:i{iv}"
                         recs.append(q(name, 'sat', detail=bad_msg))
-                        recs.append(cex(f"C18:{kind}:{op}:{classify(bad_msg)}", bad_msg, dict(fn='step', kind=kind, state=list(st), lab=list(lab), ob=ob, op=op, i=iv), name=name))
+                        recs.append(cex(f"C18:{kind}:{op}:{classify(bad_msg)}", bad_msg, dict(fn='step', kind=kind, state=list(st), lab=list(lab), ob=ob, op=op, i=iv, route=route), name=name))
                 if op in ('insert', 'setitem', 'delitem', 'pop', 'getitem'):
                     r, _ = core.check(pre + [z3.Not(z3.Or(*conds))])
                     if r != 'unsat':
@@ -284,6 +292,7 @@ def job_select(kind):
 
 # ------------------------------------------------------------------ concrete oracle
 def _replay_step_form(p, conv):
+    POOL_ROUTE[0] = p.get('route', 'ctor')
     ok, bad = pool()
     for k, f in enumerate(ok):
         f.metadata.pop('order_label', None)
@@ -359,6 +368,9 @@ def main():
             for op in OPS + (('set_order_same', 'set_order_new') if kind == 'ordered' else ()):
                 jobs.append(('job_step', (kind, n, op)))
         jobs.append(('job_select', (kind,)))
+    for n in (1, 2):
+        for op in ('append', 'insert', 'setitem', 'set_order_new'):
+            jobs.append(('job_step', ('ordered', n, op, 'from_data')))
     ck.run_jobs('props.C18', jobs, timeout_s=1500)
     ck.finish()
 
